@@ -14,7 +14,8 @@ EVIDENCE = dict(
          "histories interleave connect requests with save/load and continue on the reloaded project. "
          "Added histories: 262 modules, 1100 cycles on one destination, hubs of 20-260 destinations (MultiCtl, MetaModule, Sampler "
          "sources), the Output as a source, trailing empty positions; MC_RVSystem (focus gaps) explored exhaustively with its "
-         "transitions replayed by state injection. non-trivial = the saved state has at least one link.",
+         "transitions replayed by state injection. non-trivial = the saved state has at least one link."
+         " Every third save+load runs with the library's loggers at DEBUG.",
     explanation="states/transitions are those of the exhaustive bounded model; traces are real save/load round trips")
 
 
